@@ -1,6 +1,10 @@
 // astyield rewrites a scratch copy of the repository so that every statement
 // of every function body (function literals excepted) is preceded by a call to
 // simyield.Y(site): the statement-level yield points of the C18 scheduler.
+// Lock()/RLock()/Unlock()/RUnlock() statements, deferred unlocks and Once-style Do(f)
+// calls are bracketed by simyield.L(+1/-1), so that the scheduler knows when the running
+// task is inside a critical section and never parks it there (a parked lock holder would
+// block the next task for real, which the simulator could not tell from a deadlock).
 // The shipped code in /repo is never touched.
 package main
 
@@ -28,6 +32,15 @@ func Y(site int) {
 		Hook(site)
 	}
 }
+
+// LockHook is told when the calling goroutine enters (+1) or leaves (-1) a critical section.
+var LockHook func(delta int)
+
+func L(delta int) {
+	if LockHook != nil {
+		LockHook(delta)
+	}
+}
 `
 
 var site int
@@ -40,13 +53,95 @@ func yieldStmt() ast.Stmt {
 	}}
 }
 
+var lockSites int
+
+func lockStmt(delta int, deferred bool) ast.Stmt {
+	lockSites++
+	v := strconv.Itoa(delta)
+	call := &ast.CallExpr{
+		Fun:  &ast.SelectorExpr{X: ast.NewIdent("simyield"), Sel: ast.NewIdent("L")},
+		Args: []ast.Expr{&ast.BasicLit{Kind: token.INT, Value: v}},
+	}
+	if deferred {
+		return &ast.DeferStmt{Call: call}
+	}
+	return &ast.ExprStmt{X: call}
+}
+
+// lockKind classifies a call: +1 acquire, -1 release, 2 = Do(f) (held for the duration of the call), 0 other.
+func lockKind(c *ast.CallExpr) int {
+	sel, ok := c.Fun.(*ast.SelectorExpr)
+	if !ok {
+		return 0
+	}
+	switch sel.Sel.Name {
+	case "Lock", "RLock":
+		if len(c.Args) == 0 {
+			return 1
+		}
+	case "Unlock", "RUnlock":
+		if len(c.Args) == 0 {
+			return -1
+		}
+	case "Do":
+		if len(c.Args) == 1 {
+			return 2
+		}
+	}
+	return 0
+}
+
+// withLocks returns the statements that replace s (s itself plus the bracketing L calls).
+func withLocks(s ast.Stmt) []ast.Stmt {
+	switch v := s.(type) {
+	case *ast.ExprStmt:
+		if c, ok := v.X.(*ast.CallExpr); ok {
+			switch lockKind(c) {
+			case 1:
+				return []ast.Stmt{lockStmt(1, false), s}
+			case -1:
+				return []ast.Stmt{s, lockStmt(-1, false)}
+			case 2:
+				return []ast.Stmt{lockStmt(1, false), s, lockStmt(-1, false)}
+			}
+		}
+	case *ast.DeferStmt:
+		if lockKind(v.Call) == -1 {
+			// deferred calls run last-in-first-out: this one runs right after the deferred unlock
+			return []ast.Stmt{lockStmt(-1, true), s}
+		}
+	}
+	return []ast.Stmt{s}
+}
+
+var inFuncLit bool
+
 func instrumentList(list []ast.Stmt) []ast.Stmt {
 	out := make([]ast.Stmt, 0, 2*len(list))
 	for _, s := range list {
 		instrumentStmt(s)
-		out = append(out, yieldStmt(), s)
+		if !inFuncLit {
+			out = append(out, yieldStmt())
+		}
+		out = append(out, withLocks(s)...)
 	}
 	return out
+}
+
+// instrumentFuncLits: function literals get no yield points (as before), but their lock operations are tracked.
+func instrumentFuncLits(body *ast.BlockStmt) {
+	var lits []*ast.FuncLit
+	ast.Inspect(body, func(n ast.Node) bool {
+		if fl, ok := n.(*ast.FuncLit); ok {
+			lits = append(lits, fl)
+		}
+		return true
+	})
+	inFuncLit = true
+	for _, fl := range lits {
+		instrumentBlock(fl.Body)
+	}
+	inFuncLit = false
 }
 
 func instrumentBlock(b *ast.BlockStmt) {
@@ -127,10 +222,11 @@ func main() {
 		before := site
 		for _, d := range f.Decls {
 			if fd, ok := d.(*ast.FuncDecl); ok && fd.Body != nil {
+				instrumentFuncLits(fd.Body)
 				instrumentBlock(fd.Body)
 			}
 		}
-		if site == before {
+		if site == before && lockSites == 0 {
 			continue
 		}
 		// add the import
